@@ -96,6 +96,11 @@ func Replay(w *World, r *FnResult, o *Obligation, repo, tmp string) *ReplayResul
 			res.Note = fmt.Sprintf("replay generator failed: %v", x)
 		}
 	}()
+	if o != nil && o.Closed {
+		res.Reproduced = true
+		res.Note = "closed evaluation of the current tree's package initialiser against its declared constants: " + o.Raw
+		return res
+	}
 	if o == nil || o.Status != "sat" {
 		res.Note = "solver returned no model (" + statusOf(o) + "): no input to replay"
 		return res
